@@ -40,6 +40,21 @@ def is_unbound(minimum, maximum):
             or (maximum > 65535))
 
 
+def is_in_size_range(minimum, maximum, size):
+    """Returns True if given size is within given size range, whose
+    bounds may be open (None, 'MIN' or 'MAX').
+
+    """
+
+    if minimum not in [None, 'MIN'] and size < minimum:
+        return False
+
+    if maximum not in [None, 'MAX'] and size > maximum:
+        return False
+
+    return True
+
+
 def to_int(chars):
     if isinstance(chars, int):
         return chars
@@ -591,7 +606,7 @@ class KnownMultiplierStringType(Type):
     def encode(self, data, encoder):
 
         if self.has_extension_marker:
-            if self.minimum <= len(data) <= self.maximum:
+            if is_in_size_range(self.minimum, self.maximum, len(data)):
                 encoder.append_bit(0)
             else:
                 raise NotImplementedError(
@@ -918,7 +933,7 @@ class ArrayType(Type):
 
     def encode(self, data, encoder):
         if self.has_extension_marker:
-            if self.minimum <= len(data) <= self.maximum:
+            if is_in_size_range(self.minimum, self.maximum, len(data)):
                 encoder.append_bit(0)
             else:
                 encoder.append_bit(1)
@@ -1166,7 +1181,9 @@ class BitString(Type):
         data, number_of_bits = data
 
         if self.has_extension_marker:
-            if self.minimum <= number_of_bits <= self.maximum:
+            if is_in_size_range(self.minimum,
+                                self.maximum,
+                                number_of_bits):
                 encoder.append_bit(0)
             else:
                 raise NotImplementedError(
@@ -1255,7 +1272,7 @@ class OctetString(Type):
         align = True
 
         if self.has_extension_marker:
-            if self.minimum <= len(data) <= self.maximum:
+            if is_in_size_range(self.minimum, self.maximum, len(data)):
                 encoder.append_bit(0)
             else:
                 encoder.append_bit(1)
